@@ -692,6 +692,26 @@ func checkSocketSend(c *Check, p *Program, rule string) {
 		c.Decide(okMk, rule, name+" fresh buffer of Size(payload)", p.Pos(fn.Pos()), "make([]byte, Size(payload)) per call", "Send does not allocate a fresh buffer of exactly Size(payload) per call (a shared buffer is torn by concurrent senders; another size breaks the header's total length)")
 		okPack := pack != nil && mk != nil && pack.Common().Args[0] == ssa.Value(mk) && pack.Common().Args[1] == ssa.Value(fn.Params[1])
 		c.Decide(okPack, rule, name+" packs the payload into that buffer", p.Pos(fn.Pos()), "Pack(buffer, payload)", "the frame is not packed into the freshly allocated buffer")
+		// concurrent senders share nothing but the connection: no store to the socket, no package-level state
+		shared := ""
+		instrsOf(fn, func(in ssa.Instruction) {
+			switch x := in.(type) {
+			case *ssa.Store:
+				if pa := addrPath(x.Addr); pa.Root == ssa.Value(fn.Params[0]) && len(pa.Sels) > 0 {
+					shared = "stores to the socket's field " + pa.String() + " at " + p.InstrPos(x)
+				}
+				if _, isG := x.Addr.(*ssa.Global); isG {
+					shared = "stores to a package-level variable at " + p.InstrPos(x)
+				}
+			case *ssa.UnOp:
+				if f := loadedField(x); f != nil && x.Op == token.MUL {
+					if pa := addrPath(x.X); pa.Root == ssa.Value(fn.Params[0]) && f.Name() != "conn" && f.Name() != "addr" {
+						shared = "reads the socket's field " + f.Name() + " (state shared between concurrent senders) at " + p.InstrPos(x)
+					}
+				}
+			}
+		})
+		c.Decide(shared == "", rule, name+" shares only the connection between senders", p.Pos(fn.Pos()), "reads conn/addr, writes nothing of the socket", "Send "+shared+": concurrent senders can tear each other's frames")
 		c.Exact(rule, name+" write calls", len(writes), 1, p.Pos(fn.Pos()))
 		for _, w := range writes {
 			args := callArgs(w)
